@@ -74,7 +74,7 @@ def merged(opts, args):
 
 
 def cluster_dict(c, d, o):
-    cd = {"name": c["name"]}
+    cd = {"name": c.get("own", c["name"])}
     sc = storage_config(o, d)
     if sc:
         sc.setdefault("type", "filesystem")
@@ -93,7 +93,8 @@ def build_env(env, how, base):
                 d = dirs(base, ri, c["name"])
                 rt = val(c["args"], "rtype") or val(c["opts"], "rtype")
                 runner = RunnerBackend.create(rt, {}) if rt else None
-                clusters[c["name"]] = FunctionCluster(name=c["name"], storage=make_storage(c["opts"], c["args"], d), runner=runner)
+                # the key a cluster is registered under (what functions name) need not be the cluster's own name
+                clusters[c["name"]] = FunctionCluster(name=c.get("own", c["name"]), storage=make_storage(c["opts"], c["args"], d), runner=runner)
             repos.append(ConfigurationRepository(name="r%d" % ri, clusters=clusters))
         return Environment(name="e", base_dir=base, repos=repos)
     # declarative forms carry the merged options (there is no separate argument channel in a file)
@@ -231,7 +232,7 @@ def run_mutations(job, base, layout):
             d = dirs(base, ri, c["name"])
             rt = val(c["args"], "rtype") or val(c["opts"], "rtype")
             runner = RunnerBackend.create(rt, {}) if rt else None
-            clusters[c["name"]] = FunctionCluster(name=c["name"], storage=make_storage(c["opts"], c["args"], d), runner=runner)
+            clusters[c["name"]] = FunctionCluster(name=c.get("own", c["name"]), storage=make_storage(c["opts"], c["args"], d), runner=runner)
         return ConfigurationRepository(name="r%d" % ri, clusters=clusters)
 
     order = list(plan["init"])
